@@ -18,25 +18,26 @@ from tools.props import c06_ts as tsread
 from tools.props import c06_routes as routes
 
 MANIFEST = {
-    "level_text": "Coq theorems (Properties/C06.v, 28 theorems, no axioms) about a Gallina transcription of serde_parser.rs (skip by substring test, rename / rename_all by the whole-key scanner find_key / written_value on the proc_macro2 token string), struct_parser.rs (unraw names, skip filter for fields and variants), NamingContext::apply_naming_convention / compute_field_name / compute_variant_name and serde-rename-rule's apply_to_field / apply_to_variant: for every configured default_field_case, container kind, container rename_all, ASCII identifier (plain or raw) and attribute list (rename = any string, skip, any other name / name = any string, in any order, in one or several #[serde] attributes) in every legal serde spelling (rename = v, rename(serialize = v, deserialize = w), likewise rename_all, other container keys anywhere), for unit / tuple / struct variants, outside four narrow recorded classes (C06-2, -3, -4, -5) and the configuration class C06-7 the emitted names are exactly serde's wire names (serde_derive case.rs apply_to_field / apply_to_variant, item rename wins, absent iff skip) (C06_names_cfg; C06_names for the default configuration, where C06-7 is empty); other attributes are inert there; each class has a computed counterexample; the run-time oracle is proved exact (C06_oracle_exact). String level, every byte string: js_unescape inverts escape_js, a quoted key or enum literal lexes (Spec/TsLex) to one string token whose decoded body is the name, the key token before the colon decodes to the name whichever form ts_key chose, and for the enum alias template the text of any non-empty literal list lexes to its tokens and the type parser plus lits_of_ty read exactly the names back. Tied to /repo on every run (library API, the real CLI binary through init / generate / -c / tauri.conf.json, and the build-script entry point): ~10^4 containers through the real StructParser, FieldContext and both generators (keys read back from types.ts) against the extracted model and oracle, and the specification against the real serde_derive on 18 containers.",
+    "level_text": "Coq theorems (Properties/C06.v, 42 theorems, no axioms) about a Gallina transcription of serde_parser.rs (skip by substring test, rename / rename_all by the whole-key scanner find_key / written_value on the proc_macro2 token string), struct_parser.rs (unraw names, skip filter for fields and variants), NamingContext::apply_naming_convention / compute_field_name / compute_variant_name and serde-rename-rule's apply_to_field / apply_to_variant: for every configured default_field_case, container kind, container rename_all, identifier (plain or raw; ASCII under every rule, UTF-8 under every field rule and the PascalCase / lowercase / UPPERCASE variant rules and under camelCase with an ASCII first character) and attribute list (rename = any string, skip, any other name / name = any string, in any order, in one or several #[serde] attributes) in every legal serde spelling (rename = v, rename(serialize = v, deserialize = w), likewise rename_all, other container keys anywhere), for unit / tuple / struct variants, outside four narrow recorded classes (C06-2, -3, -4, -5) and the configuration class C06-7 the emitted names are exactly serde's wire names (serde_derive case.rs apply_to_field / apply_to_variant, item rename wins, absent iff skip) (C06_names_cfg; C06_names for the default configuration, where C06-7 is empty); other attributes are inert there; each class has a computed counterexample; the run-time oracle is proved exact (C06_oracle_exact). String level, every byte string: js_unescape inverts escape_js, a quoted key or enum literal lexes (Spec/TsLex) to one string token whose decoded body is the name, the key token before the colon decodes to the name whichever form ts_key chose, and for the enum alias template the text of any non-empty literal list lexes to its tokens and the type parser plus lits_of_ty read exactly the names back; the five sequential replaces of the escape functions are proved to be the character-wise map (C06_escape_code_charwise); whole declarations: for every identifier N, every member list (key bare or quoted as ts_key chose, optional marker, any value text that lexes before the separator and is read as one unit by the type / expression parser) and every non-empty name list, the text of the interface, of the enum alias, of the z.object constant and of the z.enum constant as the templates print them is read by lex_module + parse_module + read_keys (the reader the run-time check applies to types.ts) as exactly the serialized names (C06_read_interface / _alias / _zobject / _zenum, with the list-level lemmas C06_interface_members_read through p_members, C06_zobject_props_read through p_props, C06_zenum_array_read through p_exlist). Tied to /repo on every run (library API, the real CLI binary through init / generate / -c / tauri.conf.json, and the build-script entry point): ~10^4 containers through the real StructParser, FieldContext and both generators (keys read back from types.ts) against the extracted model and oracle, the printed declaration of every case compared byte for byte with the extracted model text, and the specification against the real serde_derive on 45 containers (20 of them with non-ASCII identifiers).",
     "design_ref": "DESIGN.md section 5 C06",
-    "level_note": "Identifiers are ASCII: field rules and the PascalCase / lowercase / UPPERCASE / camelCase variant rules use only ASCII operations and the byte-level model is exact for them on any UTF-8 identifier, but SnakeCase-based variant rules call char::is_uppercase (Unicode), for which no table exists in the development; non-ASCII identifiers are therefore left out of the domain rather than half covered. String level: proved per token (key, literal) and for the whole enum alias right-hand side; the interface member list, the z.object property list and the z.enum array are not carried through p_members / p_exlist / p_item (the lexing of their keys and literals is covered by C06_key_token / C06_lex_literal, the rest is checked by the run-time read-back only). ts_key's Unicode test is_identifier_name is a parameter (bare only for identifier bytes). The five sequential replaces of escape_js are taken as the character-wise map (proved for the identical escape_js_string by C11's escape_charwise). The specification of serde's rules is a transcription of serde_derive's case.rs, compared on every run with types derived by the real serde_derive on 18 fixed containers (finite validation). The tie between model and code is differential (bounded).",
+    "level_note": "Non-ASCII identifiers are in the domain exactly where serde_derive computes with ASCII operations (every field rule; PascalCase / lowercase / UPPERCASE variant rules; camelCase when the first character of the PascalCase form / variant name is ASCII - otherwise the derive macro panics and the type does not compile); the four SnakeCase-based variant rules call char::is_uppercase (Unicode), for which no table exists in the development, and stay ASCII-only. String level: ts_key's Unicode test is_identifier_name is a parameter (the bare flag of a member, constrained only by bare -> identifier bytes); the text after a colon (TypeScript type, Zod expression) is abstract - any text that lexes before the separator and is read as one unit by ptype / p_expr 62, which C10's round trips establish for its domain but are not composed with C06 inside Coq (different lexing boundary); an enum without literals (never / z.never()) and the rest of the file (header, imports, z.infer alias, other declarations) are outside the four declaration texts and covered by the run-time reader only. The declaration texts of the model are compared with the real types.ts byte for byte on every case (differential). The specification of serde's rules is a transcription of serde_derive's case.rs, compared on every run with types derived by the real serde_derive on 45 fixed containers (finite validation). The tie between model and code is differential (bounded).",
     "technique": "Rocq/Coq proof over hand-written model + correspondence check (extracted OCaml vs Rust harness)"
 }
 
-RULE = ("gated: 128 containers whose rename_all / rename / skip sit behind cfg_attr with a predicate that is false in the oracle's build (5 predicates), alone and beside real attributes, also drawn in random; histories: 12 edits of serde attributes (rename equal to the identifier under a rule, rename_all added / removed / changed / respelled, skip toggled, rename added / changed, fields and variants) as histories v1 v2 v1 of unforced runs into one output directory, CLI and build route, both modes, keys judged after every run; routes: 4 containers x 11 configuration routes (init, init then generate, init -v zod, init -o file then generate -c, generate -c, tauri.conf.json in three places, from_tauri_config, BuildSystem with tauri.conf.json / typegen.json) x the default_field_case written (absent / 4 values incl. an unknown one), real CLI binary in a sandbox; types: 17 field types x 3 rules x 4 attribute shapes; spellings: {struct, enum} x 9 container rules x 12 spellings of the container attributes (rename_all = .., rename_all(serialize = .., deserialize = ..) same / one-sided / different / either order, other keys before and after, split attributes) x unit / tuple / struct variants on multi-word identifiers; every stream: three white-space styles, variant shapes, rename(serialize = .., deserialize = ..); exhaustive: 9 container rules x {struct, enum} x every item-attribute shape of the generator (none, rename, skip, "
+RULE = ("unicode: {struct, enum} x 8 rules and none x 10 / 9 non-ASCII identifiers (accented, CJK, raw, non-ASCII head, inner underscore) x 5 attribute shapes, in the domain where serde uses ASCII operations, correspondence only elsewhere; every case: the printed declaration of T0 (plain and Zod) equals the model text; gated: 128 containers whose rename_all / rename / skip sit behind cfg_attr with a predicate that is false in the oracle's build (5 predicates), alone and beside real attributes, also drawn in random; histories: 12 edits of serde attributes (rename equal to the identifier under a rule, rename_all added / removed / changed / respelled, skip toggled, rename added / changed, fields and variants) as histories v1 v2 v1 of unforced runs into one output directory, CLI and build route, both modes, keys judged after every run; routes: 4 containers x 11 configuration routes (init, init then generate, init -v zod, init -o file then generate -c, generate -c, tauri.conf.json in three places, from_tauri_config, BuildSystem with tauri.conf.json / typegen.json) x the default_field_case written (absent / 4 values incl. an unknown one), real CLI binary in a sandbox; types: 17 field types x 3 rules x 4 attribute shapes; spellings: {struct, enum} x 9 container rules x 12 spellings of the container attributes (rename_all = .., rename_all(serialize = .., deserialize = ..) same / one-sided / different / either order, other keys before and after, split attributes) x unit / tuple / struct variants on multi-word identifiers; every stream: three white-space styles, variant shapes, rename(serialize = .., deserialize = ..); exhaustive: 9 container rules x {struct, enum} x every item-attribute shape of the generator (none, rename, skip, "
         "skip_serializing_if, default, default = s, pairs in both orders, split over two #[serde]) x 16 identifier shapes, one "
         "item per container (quick: every third (shape, identifier) pair per rule; thorough: all); random: containers of 1-5 items with 0-3 attributes each over a value alphabet containing skip / "
         "rename / quotes / backslashes / non-ASCII; malformed: out-of-domain attribute text (correspondence only); real-serde: the "
-        "specification against 18 containers derived by the real serde_derive. A case is "
+        "specification against 45 containers derived by the real serde_derive (20 with non-ASCII identifiers). A case is "
         "non-trivial when it has a container rule or an item attribute; distinct = distinct (container, config) pairs")
 TRUSTED = [
-    "Spec/C06SerdeRule.v is a transcription of serde_derive-1.0.228 src/internals/case.rs (identical in 1.0.219/1.0.229) and of the rename/skip rules of attr.rs; validated on every run (stream real-serde) against the serde_derive + serde_json the harness is compiled with: 8 rules and none x {struct, enum} x 16 identifier shapes plus rename / skip / default / skip_serializing_if items",
+    "Spec/C06SerdeRule.v is a transcription of serde_derive-1.0.228 src/internals/case.rs (identical in 1.0.219/1.0.229) and of the rename/skip rules of attr.rs; validated on every run (stream real-serde) against the serde_derive + serde_json the harness is compiled with: 8 rules and none x {struct, enum} x 16 identifier shapes plus rename / skip / default / skip_serializing_if items, and 20 types with non-ASCII identifiers under the rules of the widened domain",
     "Spec/TsModule.v + Spec/C06Keys.v read types.ts (quoted keys and literals decoded by js_unescape); tools/props/c06_ts.py (line reader) only when the file is outside the module grammar",
     "tools/props/c06_gen.py prints the Rust source of a case; the printed attribute text is validated on every case against proc_macro2 (token strings equal the model's)",
 ]
-ASSUMPTIONS = ["identifiers are ASCII (plain or raw)"]
+ASSUMPTIONS = ["identifiers are ASCII (plain or raw), or UTF-8 under the rules serde computes with ASCII operations (see level_note)"]
 
+PRINT_STATS = {"decls": 0}
 KF_IDS = ["C06-2", "C06-3", "C06-4", "C06-5", "C06-7"]      # order of ExC06.c06_classes; C06-1, -6, -8, -9 are repaired      # order of ExC06.c06_classes; C06-1 and C06-6 are repaired
 
 
@@ -97,6 +98,67 @@ def evaluate_raw(cases):
     return outs
 
 
+
+# ---------------------------------------------------------------- printed declarations (deepening round 7)
+def _split_key(line):
+    """line = 'KEY[?]: VALUE' as the templates print it; returns (bare, opt, value) or None"""
+    if line.startswith('"'):
+        i = 1
+        while i < len(line) and line[i] != '"':
+            i += 2 if line[i] == "\\" else 1
+        if i >= len(line):
+            return None
+        bare, end = False, i + 1
+    else:
+        idx = [j for j in (line.find("?"), line.find(":")) if j >= 0]
+        if not idx:
+            return None
+        bare, end = True, min(idx)
+    opt = line[end:end + 1] == "?"
+    if opt:
+        end += 1
+    if line[end:end + 2] != ": ":
+        return None
+    return bare, opt, line[end + 2:]
+
+
+def printed_decl(kind, mode, text, names):
+    """the declaration of T0 cut out of the real file and the request that makes the model
+    (Model/C06Print.v interface_text / zobject_text / alias_text / zenum_text) print it again from the
+    serialized names, the choice ts_key made (bare or quoted) and the text after each colon.
+    Returns (real_text, request) or None when the declaration is one the model texts do not cover
+    (an enum without literals prints never / z.never())."""
+    if kind == "struct":
+        head, tail, what, sep = (("export interface T0 {", "\n}", "interface", ";") if mode == "plain"
+                                 else ("export const T0Schema = z.object({", "\n});", "zobject", ","))
+        a = text.find(head)
+        b = text.find(tail, a) if a >= 0 else -1
+        if a < 0 or b < 0:
+            return None
+        real = text[a:b + len(tail)]
+        lines = [ln for ln in real[len(head):len(real) - len(tail)].split("\n") if ln]
+        if len(lines) != len(names):
+            return real, None
+        members = []
+        for ln, name in zip(lines, names):
+            if not ln.startswith("  ") or not ln.endswith(sep):
+                return real, None
+            k = _split_key(ln[2:-1])
+            if k is None:
+                return real, None
+            members.append([name, k[0], k[1], k[2]])
+        return real, sx([what, "T0", members])
+    if not names:
+        return None
+    head, what = ("export type T0 = ", "alias") if mode == "plain" else ("export const T0Schema = z.enum([", "zenum")
+    a = text.find(head)
+    if a < 0:
+        return None
+    b = text.find("\n", a)
+    real = text[a:b if b >= 0 else len(text)]
+    return real, sx([what, "T0", [[n, False, False, ""] for n in names]])
+
+
 def evaluate(cases, e2e=True):
     raw = [c for c in cases if is_raw(c)]
     if raw:
@@ -126,18 +188,39 @@ def evaluate(cases, e2e=True):
                 d["keys_" + mode] = None
                 d["how"][mode] = "error: %s" % t
         impl.append(d)
+    # the printed declarations against the model texts
+    pr_req, pr_idx, pr_real = [], [], {}
+    for i, (c, o) in enumerate(zip(cases, obs)):
+        for mode, nk in (("plain", "names"), ("zod", "names_zod")):
+            t = o.get("ts_" + mode)
+            if isinstance(t, str) and isinstance(o.get(nk), list):
+                pd = printed_decl(c["kind"], mode, t, o[nk])
+                if pd is None:
+                    continue
+                pr_real[(i, mode)] = pd[0]
+                if pd[1] is not None:
+                    pr_req.append(pd[1])
+                    pr_idx.append((i, mode))
+    pr_res = dict(zip(pr_idx, vlib.run_runner("c06-print", pr_req))) if pr_req else {}
     req = []
     for c, o, d in zip(cases, obs, impl):
         lists = [d[k] if d.get(k) is not None else ["<unreadable>"] for k in ("names", "names_zod", "keys_plain", "keys_zod") if k in d]
         req.append(sx([c.get("dfc", "snake_case"), container_sx(c), lists]))
     res = vlib.run_runner("c06-eval", req)
     outs = []
-    for c, o, d, m in zip(cases, obs, impl, res):
+    for ci, (c, o, d, m) in enumerate(zip(cases, obs, impl, res)):
         if o.get("skipped"):
             continue
         if m and m[0] == "runner-error":
             raise vlib.BuildError("runner: %s (case %s)" % (m, json.dumps(c)))
         model, in_dom, classes, spec, oks, mtoks, mctoks = m
+        print_bad = {}
+        for mode in ("plain", "zod"):
+            if (ci, mode) in pr_real:
+                PRINT_STATS["decls"] += 1
+                got = pr_res.get((ci, mode))
+                if not isinstance(got, str) or got != pr_real[(ci, mode)]:
+                    print_bad[mode] = {"real": pr_real[(ci, mode)], "model": got}
         in_dom = in_dom == "true"
         model_names = list(model[1]) if model[0] == "ok" else None
         kf = None
@@ -155,7 +238,7 @@ def evaluate(cases, e2e=True):
             raise vlib.BuildError("generator printed Rust that the harness cannot use: %s\n%s" % (o, gen.rust_source(c)))
         tok_ok = o["tokens"] == [list(x) for x in mtoks] and o["ctokens"] == list(mctoks)
         observed = [d.get(k) for k in ("names", "names_zod", "keys_plain", "keys_zod") if k in d]
-        corr = tok_ok and model_names is not None and all(x == model_names for x in observed)
+        corr = tok_ok and model_names is not None and all(x == model_names for x in observed) and not print_bad
         if in_dom:
             ok = all(x == "true" for x in oks) and all(x is not None for x in observed)
         else:
@@ -164,6 +247,8 @@ def evaluate(cases, e2e=True):
                "read_by": d["how"], "model": model_names, "serde": list(spec), "in_domain": in_dom,
                "tokens_impl": o["tokens"], "tokens_model": [list(x) for x in mtoks],
                "classes": dict(zip(KF_IDS, classes)), "rust": gen.rust_source(c)}
+        if print_bad:
+            det["printed_declaration_mismatch"] = print_bad
         if not tok_ok:
             det["token_mismatch"] = {"impl": [o["tokens"], o["ctokens"]], "model": [[list(x) for x in mtoks], list(mctoks)]}
         outs.append(Outcome(case, corr, ok, kf, det, nontrivial and in_dom))
@@ -409,6 +494,7 @@ def run_streams(rep):
     rep.add("routes", evaluate_routes(routes.route_cases(thorough)))
     rep.add("histories", evaluate_histories(routes.history_cases(thorough)))
     rep.add("real-serde", real_serde_outcomes())
+    rep.extra["printed_declarations_compared_with_model_text"] = PRINT_STATS["decls"]
 
 
 def replay(rep, payload):
